@@ -198,15 +198,18 @@ Definition do_close (s : state) : state :=
   mkState (items s) (cur s) true (nseq s) PJoin (todo s) (ws s) (bcount s) (bgen s) (claimable s)
           (ground s) (pushed s) (segd s) (rawbuf s) (rounds s).
 
+(* the critical section of queue.push(t, size) (first entry, or re-entry after not_full.wait returned) *)
+Definition step_push (pa : params) (s : state) (t : task) (rest : list pop) (ntf : option nat) : option state :=
+  if closed s then None                                                         (* Err(Closed): see header *)
+  else if push_blocked pa s (tsize t) then Some (set_pst s PWaitF)             (* [KF] WF *)
+  else admit s t rest ntf.                                                      (* [KF] A *)
+
 (* one atomic step of the producer *)
 Definition step_prod (pa : params) (s : state) (ntf : option nat) : option state :=
   match pst s with
   | PRun =>
     match todo s with
-    | OPush t :: rest =>
-      if closed s then None
-      else if push_blocked pa s (tsize t) then Some (set_pst s PWaitF)         (* WF *)
-      else admit s t rest ntf                                                   (* A *)
+    | OPush t :: rest => step_push pa s t rest ntf
     | OPoll :: rest =>
       match items s with
       | [] => Some (set_todo s rest)                                            (* queue.len() == 0: loop exit *)
@@ -216,10 +219,7 @@ Definition step_prod (pa : params) (s : state) (ntf : option nat) : option state
     end
   | PWokenF =>
     match todo s with
-    | OPush t :: rest =>
-      if closed s then None
-      else if push_blocked pa s (tsize t) then Some (set_pst s PWaitF)         (* KF WF *)
-      else admit s t rest ntf                                                   (* KF A *)
+    | OPush t :: rest => step_push pa s t rest ntf
     | _ => None
     end
   | PWaitF => None
@@ -231,6 +231,41 @@ Definition step_prod (pa : params) (s : state) (ntf : option nat) : option state
 Definition after_bar (k : nat) (w : worker) : worker :=
   if (k =? 3)%nat then mkW WPull (S (wrounds w)) else mkW (WPhase k) (wrounds w).
 
+(* the critical section of queue.pull() entered by worker w (wk = its record), from WPull or WWokenE *)
+Definition step_pull (s : state) (w : nat) (wk : worker) (sq : N) : option state :=
+  let put (x : worker) := upd w x (ws s) in
+  match items s with
+  | [] =>
+    if closed s then Some (set_ws s (put (set_pc wk WExited)))                          (* N, "EXIT" *)
+    else Some (set_ws s (put (set_pc wk WWaitE)))                                       (* WE *)
+  | _ :: _ =>
+    match extract sq (items s) with
+    | Some (it, rest) =>
+      if is_max it (items s) then
+        match sub_u64 (cur s) (tsize (itask it)) with
+        | Some c' =>                                                                     (* T *)
+          Some (mkState rest c' (closed s) (nseq s) (notify_full (pst s)) (todo s)
+                        (put (set_pc wk (if ttok (itask it) then WBar 0 else WSeg (iseq it))))
+                        (bcount s) (bgen s) (claimable s) (ground s) (pushed s) (segd s) (rawbuf s) (rounds s))
+        | None => None
+        end
+      else None
+    | None => None
+    end
+  end.
+
+(* Barrier::wait number k entered by worker w *)
+Definition step_arrive (pa : params) (s : state) (w : nat) (wk : worker) (k : nat) : option state :=
+  let put (x : worker) := upd w x (ws s) in
+  if (4 <=? k)%nat then None
+  else if (S (bcount s) <? nthr pa)%nat then                                            (* count += 1; wait *)
+    Some (mkState (items s) (cur s) (closed s) (nseq s) (pst s) (todo s) (put (set_pc wk (WBarW k (bgen s))))
+                  (S (bcount s)) (bgen s) (claimable s) (ground s) (pushed s) (segd s) (rawbuf s) (rounds s))
+  else                                                                                   (* last: count = 0; gen += 1 *)
+    Some (mkState (items s) (cur s) (closed s) (nseq s) (pst s) (todo s) (put (after_bar k wk))
+                  0 (S (bgen s)) (claimable s) (if (k =? 3)%nat then S (ground s) else ground s)
+                  (pushed s) (segd s) (rawbuf s) (rounds s)).
+
 (* one atomic step of worker w; sq = seq of the item taken (pull), nb = number of buffers prepared (worker 0,
    phase 0); both ignored by the other steps *)
 Definition step_work (pa : params) (s : state) (w : nat) (sq : N) (nb : nat) : option state :=
@@ -239,40 +274,13 @@ Definition step_work (pa : params) (s : state) (w : nat) (sq : N) (nb : nat) : o
   | Some wk =>
     let put (x : worker) := upd w x (ws s) in
     match pc wk with
-    | WPull | WWokenE =>
-      match items s with
-      | [] =>
-        if closed s then Some (set_ws s (put (set_pc wk WExited)))                      (* N, "EXIT" *)
-        else Some (set_ws s (put (set_pc wk WWaitE)))                                   (* WE *)
-      | _ :: _ =>
-        match extract sq (items s) with
-        | Some (it, rest) =>
-          if is_max it (items s) then
-            match sub_u64 (cur s) (tsize (itask it)) with
-            | Some c' =>                                                                 (* T *)
-              Some (mkState rest c' (closed s) (nseq s) (notify_full (pst s)) (todo s)
-                            (put (set_pc wk (if ttok (itask it) then WBar 0 else WSeg (iseq it))))
-                            (bcount s) (bgen s) (claimable s) (ground s) (pushed s) (segd s) (rawbuf s) (rounds s))
-            | None => None
-            end
-          else None
-        | None => None
-        end
-      end
+    | WPull | WWokenE => step_pull s w wk sq
     | WWaitE =>
       if closed s then Some (set_ws s (put (set_pc wk WWokenE))) else None              (* close's notify_all *)
     | WSeg q =>                                                                          (* "SEGMENTED" *)
       Some (mkState (items s) (cur s) (closed s) (nseq s) (pst s) (todo s) (put (set_pc wk WPull))
                     (bcount s) (bgen s) (claimable s) (ground s) (pushed s) (q :: segd s) (q :: rawbuf s) (rounds s))
-    | WBar k =>
-      if (4 <=? k)%nat then None
-      else if (S (bcount s) <? nthr pa)%nat then                                        (* count += 1; wait *)
-        Some (mkState (items s) (cur s) (closed s) (nseq s) (pst s) (todo s) (put (set_pc wk (WBarW k (bgen s))))
-                      (S (bcount s)) (bgen s) (claimable s) (ground s) (pushed s) (segd s) (rawbuf s) (rounds s))
-      else                                                                               (* last: count = 0; gen += 1 *)
-        Some (mkState (items s) (cur s) (closed s) (nseq s) (pst s) (todo s) (put (after_bar k wk))
-                      0 (S (bgen s)) (claimable s) (if (k =? 3)%nat then S (ground s) else ground s)
-                      (pushed s) (segd s) (rawbuf s) (rounds s))
+    | WBar k => step_arrive pa s w wk k
     | WBarW k g =>
       if (g =? bgen s)%nat then None else Some (set_ws s (put (after_bar k wk)))        (* generation changed *)
     | WPhase 0 =>
